@@ -201,7 +201,7 @@ theorem feasible_iff_rows (I : ArcInst) (x : Vec) :
   unfold MPData.feasibleB
   simp [hq]
 
-/-! ## statements to prove (replace every `sorry`) -/
+/-! ## property theorems -/
 
 theorem sel_mem_iff (I : ArcInst) (hw : WF I) (x : Vec) (u : ATup) :
     u ∈ sel I x ↔ ∃ k, I.varIndex u = some k ∧ x k = 1 := by
